@@ -312,6 +312,30 @@ Definition prop_commits (ob : obs) : list string :=
                                       | Some y => snd y | None => [] end))
                (ob_cget ob)) "prop:get_commitment".
 
+(** External ids can be re-used: an order creation / external-id change that is well formed and
+    asks for an external id that NO open order of that market carried before the step (by the
+    implementation's own GetOrder answers, [prev]) must not be refused.  The harness keeps every
+    other acceptance condition satisfied (funds, permissions, existing markets accepting orders). *)
+Definition ext_carried (prev : list (N * order)) (m : N) (e : bytes) : bool :=
+  existsb (fun x => (o_market (snd x) =? m) && bytes_eqb (o_ext (snd x)) e) prev.
+
+Definition prop_ext_reuse (prev : list (N * order)) (o : xop) (ok : bool) : list string :=
+  tag (match o with
+       | XO (OCreate ord) =>
+           if wf_order ord && negb (Nat.eqb (List.length (o_ext ord)) 0)
+              && negb (ext_carried prev (o_market ord) (o_ext ord))
+           then ok else true
+       | XO (OSetExt m id e) =>
+           match List.find (fun x => fst x =? id) prev with
+           | Some x =>
+               if (o_market (snd x) =? m) && ext_ok e && negb (Nat.eqb (List.length e) 0)
+                  && negb (ext_carried prev m e)
+               then ok else true
+           | None => true
+           end
+       | _ => true
+       end) "prop:external_id_not_carried_by_any_open_order_was_refused".
+
 (** Model listings = implementation listings. *)
 Definition corr_obs (s : st) (ob : obs) : list string :=
   tag (forallb (fun id => opt_eqb order_eqb (get_order s id)
@@ -348,7 +372,8 @@ Definition corr_cobs (c : cstate) (ob : obs) : list string :=
 Definition is_known (t : string) : bool := String.prefix "prop:known:" t.
 
 (** One step: (new model state, tags that are not the known finding, known-finding tags). *)
-Definition check_step (s : xstate) (prev_max : N) (prev_ids : list N) (prev_mk : list (N * N)) (h : hstep)
+Definition check_step (s : xstate) (prev_max : N) (prev_ids : list N) (prev_mk : list (N * N))
+           (prev_orders : list (N * order)) (h : hstep)
   : xstate * list string * list string :=
   let '(St o ok created ob ss) := h in
   let model_created :=
@@ -367,6 +392,7 @@ Definition check_step (s : xstate) (prev_max : N) (prev_ids : list N) (prev_mk :
     tag (forallb (corr_session s') ss) "corr:page" ++
     prop_obs prev_max prev_ids ob ++
     prop_markets prev_mk o ok created ob ++
+    prop_ext_reuse prev_orders o ok ++
     prop_commits ob ++
     filter (fun t => negb (is_known t)) sess in
   (s', tags, filter is_known sess).
@@ -382,12 +408,12 @@ Fixpoint dedup_str (l : list string) : list string :=
 
 (** Whole history: the tags of the first failing step (with its number), plus the known-finding
     tag if the known shape was met anywhere. *)
-Fixpoint check_steps (s : xstate) (prev_max : N) (prev_ids : list N) (prev_mk : list (N * N)) (i : N)
-         (l : list hstep) (first : list string) (known : list string) : list string :=
+Fixpoint check_steps (s : xstate) (prev_max : N) (prev_ids : list N) (prev_mk : list (N * N))
+         (prev_orders : list (N * order)) (i : N) (l : list hstep) (first : list string) (known : list string) : list string :=
   match l with
   | [] => first ++ dedup_str known
   | h :: r =>
-      let '(s', tags, kn) := check_step s prev_max prev_ids prev_mk h in
+      let '(s', tags, kn) := check_step s prev_max prev_ids prev_mk prev_orders h in
       let '(St _ _ _ ob _) := h in
       let ids := map fst (ob_orders ob) in
       let mx := fold_left N.max ids prev_max in
@@ -395,12 +421,12 @@ Fixpoint check_steps (s : xstate) (prev_max : N) (prev_ids : list N) (prev_mk : 
                     | [], _ :: _ => stamp i tags
                     | _, _ => first
                     end in
-      check_steps s' mx ids (ob_mnames ob) (N.succ i) r first' (known ++ kn)
+      check_steps s' mx ids (ob_mnames ob) (ob_orders ob) (N.succ i) r first' (known ++ kn)
   end.
 
 Definition check (c : case) : list string :=
   match c with
-  | CHist steps => check_steps xinit 0 [] [] 0 steps [] []
+  | CHist steps => check_steps xinit 0 [] [] [] 0 steps [] []
   end.
 
 Definition check_all := check_list check.
